@@ -64,6 +64,7 @@ NOTES = {
  'C11-m11': ('C11', 'a set with a named port against sets holding nearly every port number'),
  'C12-m11': ('C12', 'eval queries whose destination the seed NetworkPolicy governs'),
  'C14-m12': ('C14', 'edit: rules added in a direction that explicit policyTypes leave out'),
+ 'C14-m10': ('C14', 'edit: defaulted vs explicit [Ingress, Egress] forced on policies with egress rules only'),
 }
 base = '/verif/seeded'
 for sid in sorted(os.listdir(base)):
